@@ -129,9 +129,10 @@ w('g3_parser_verbs', ['C13', 'C05', 'C03'], 'Command::parse_from_message',
   [reg('a', 'alice'), reg('b', 'bob'), ['a', 'send', 'JOIN #pv'], ['a', 'recv'], ['b', 'send', 'JOIN #pv'], ['b', 'recv'], ['a', 'recv'],
    ['a', 'send', 'top\u0131c #pv :x'], ['a', 'recv', 'dotless'], ['b', 'recv', 'relay1'], ['a', 'send', 'pa\u00df x'], ['a', 'recv', 'sz'],
    ['a', 'send', 'privmsg #pv :lower  case '], ['b', 'recv', 'relay2'], ['a', 'send', 'PrIvMsG bob ::) x:y'], ['b', 'recv', 'relay3'],
+   ['a', 'send', '  :alice!~alice@127.0.0.1 PRIVMSG bob :pre fix'], ['b', 'recv', 'relay4'], ['a', 'send', ':alice PRIVMSG bob :p2'], ['b', 'recv', 'relay5'],
    ['a', 'send', 'PING :alive'], ['a', 'recv', 'alive']],
   "panic or 'a' in eof or not any(' 421 ' in l for l in R['dotless']) or R['relay1'] != [] or not any(' 421 ' in l for l in R['sz']) "
-  "or R['relay2'] != [':alice!~alice@127.0.0.1 PRIVMSG #pv :lower  case '] or R['relay3'] != [':alice!~alice@127.0.0.1 PRIVMSG bob ::) x:y'] "
+  "or R['relay2'] != [':alice!~alice@127.0.0.1 PRIVMSG #pv :lower  case '] or R['relay3'] != [':alice!~alice@127.0.0.1 PRIVMSG bob ::) x:y'] or R['relay4'] != [':alice!~alice@127.0.0.1 PRIVMSG bob :pre fix'] or R['relay5'] != [':alice!~alice@127.0.0.1 PRIVMSG bob :p2'] "
   "or not any('PONG' in l for l in R['alive'])", more=['Command::from_message', 'Message::from_shared_str', 'Command::validate'])
 w('g3_ban_exceptions', ['C07', 'C10'], 'ChannelModes::banned',
   'a user matching a ban mask and ONE of several exception masks is refused (or a banned user without exception is admitted / may speak)',
@@ -155,4 +156,19 @@ w('g3_mode_query_text', ['C08', 'C11'], 'fmt::Display+for+ChannelModes::fmt',
    ['a', 'send', 'MODE alice +iw'], ['a', 'recv'], ['a', 'send', 'MODE alice'], ['a', 'recv', 'u1']],
   "panic or not any(' 324 ' in l and ' +tnkl sesame 10 ' in (l + ' ') for l in R['q1']) or not any(' 324 ' in l and ' +tnl 10 ' in (l + ' ') for l in R['q2']) "
   "or not any(' 221 ' in l and l.split()[3] == '+iw' for l in R['u1'])", more=['fmt::Display+for+UserModes::fmt', 'MainState::process_mode_channel'])
+w('g3_nick_case_and_prefix', ['C15', 'C01', 'C02'], 'MainState::process_nick',
+  'a NICK that changes only the letter case is ignored, or messages sent after a rename still carry the old prefix',
+  [reg('a', 'alice'), reg('b', 'bob'), ['a', 'send', 'JOIN #nc'], ['a', 'recv'], ['b', 'send', 'JOIN #nc'], ['b', 'recv'], ['a', 'recv'],
+   ['a', 'send', 'NICK Alice'], ['a', 'recv', 'own'], ['b', 'recv', 'peer'], ['a', 'send', 'PRIVMSG bob :after rename'], ['b', 'recv', 'msg'],
+   ['a', 'send', 'PRIVMSG #nc :to channel'], ['b', 'recv', 'msg2'], ['b', 'send', 'NICK alice'], ['b', 'recv', 'free']],
+  "panic or R['own'] != [':alice!~alice@127.0.0.1 NICK Alice'] or R['peer'] != R['own'] or R['msg'] != [':Alice!~alice@127.0.0.1 PRIVMSG bob :after rename'] "
+  "or R['msg2'] != [':Alice!~alice@127.0.0.1 PRIVMSG #nc :to channel'] or R['free'] != [':bob!~bob@127.0.0.1 NICK alice']")
+w('g3_mode_nonmember', ['C05', 'C08'], 'mode_apply_letter',
+  'MODE #chan +o/+v/.. naming a registered user that is not on the channel aborts the handler (or changes something)',
+  [reg('a', 'alice'), reg('b', 'bob'), reg('c', 'carol'), ['a', 'send', 'JOIN #mn'], ['a', 'recv'], ['c', 'send', 'JOIN #mn'], ['c', 'recv'], ['a', 'recv'],
+   ['a', 'send', 'MODE #mn +o bob'], ['a', 'recv', 'o'], ['a', 'send', 'MODE #mn +v bob'], ['a', 'recv', 'v'], ['a', 'send', 'MODE #mn -h bob'], ['a', 'recv', 'h'],
+   ['a', 'send', 'MODE #mn +q bob'], ['a', 'recv', 'q'], ['a', 'send', 'MODE #mn +a bob'], ['a', 'recv', 'p'], ['c', 'recv', 'seen'], ['a', 'send', 'PING :alive'], ['a', 'recv', 'alive'],
+   ['a', 'send', 'PRIVMSG #mn :still here'], ['c', 'recv', 'chan']],
+  "panic or 'a' in eof or any([l.split()[1] for l in R[k]] != ['441'] for k in ('o', 'v', 'h', 'q', 'p')) or R['seen'] != [] or not any('PONG' in l for l in R['alive']) "
+  "or R['chan'] != [':alice!~alice@127.0.0.1 PRIVMSG #mn :still here']", more=['MainState::process_mode_channel'])
 print('written')
